@@ -18,7 +18,7 @@ ASSUMPTIONS = ["RwLock acquisitions are ranked like exclusive ones (a reader may
 TRUSTED = ["sentinel_core::verif_sync (lock wrappers and scheduler, hook)", "gen/C15_pre_lean.py (trace extraction)"]
 KEEP_PREFIX = 1
 
-POOL = {"flow": ["t3", "t5", "w9", "xneg"], "iso": ["c1", "c2", "xzero"], "hs": ["q2", "q4", "c3", "xdur"], "br": ["e2", "r5", "s5", "xivl"], "sys": ["q5", "c3", "l5", "xneg"]}
+POOL = {"flow": ["t3", "t5", "w9", "xneg"], "iso": ["c1", "c2", "xzero"], "hs": ["q2", "q4", "c3", "xdur"], "br": ["e2", "r5", "s5", "e2w", "xivl"], "sys": ["q5", "c3", "l5", "xneg"]}
 
 
 def mgr_op(rng, fam, nid):
